@@ -16,17 +16,19 @@ from fractions import Fraction
 import numpy as np
 
 from core.ctx import VERIF
+from translators import t_gridweights
 
 ID = "C31"
 LEAN_MODULES = ["NiftyVerif.Core.Proto", "NiftyVerif.Props.C31"]
 DRIVER = "Driver/C31.lean"
+TRANSLATORS = [t_gridweights.translate]
 OBLIGATIONS = ["NiftyVerif.C31." + t for t in (
     "parent_child", "parent_child_open", "children_partition", "children_partition_open", "healpix_parent_child",
     "parent_child_vec", "children_cover_vec", "mgrid_componentwise", "open_shape_shift_step",
     "ravelSerial_lt", "flat_roundtrip_serial", "flat_roundtrip_serial_inv",
     "flat_parent_commutes", "flat_children_commute", "flat_parent_commutes_serial",
     "flat_roundtrip_nest", "flat_roundtrip_nest_inv", "nest_children_contiguous", "nest_bound_is_shape",
-    "flat_parent_commutes_nest",
+    "flat_parent_commutes_nest", "weights_serial_translated",
     "coord_roundtrip", "coord_roundtrip_rint", "volume_conserved_axis", "volume_conserved", "edges_refine",
     "simple_coord_roundtrip",
     "neighbourhood_in_range", "neighbourhood_centre", "neighbourhood_wraps", "open_neighbourhood_eq")]
@@ -724,12 +726,28 @@ def check_specs(ctx, specs):
         slices.append((len(reqs), len(reqs) + len(rq)))
         reqs += rq
     mreqs, mreals = misc_requests(ctx)
+    treqs, treals = translator_requests()
+    mreqs, mreals = mreqs + treqs, mreals + treals
     outs = ctx.model(DRIVER, reqs + mreqs)
     for j, (a, b) in zip(jobs, slices):
         check_levels(ctx, j, outs[a:b])
     for rq, re_, mo in zip(mreqs, mreals, outs[len(reqs):]):
         ctx.compare(rq, re_, mo, note="C31 " + rq["op"], nontrivial=True)
         ctx.stat("misc:" + rq["op"])
+
+
+def translator_requests():
+    """validate translators/t_gridweights.py: generated Lean definition vs the Python original on a grid of shapes"""
+    _jax()
+    from nifty.re.multi_grid.grid import FlatGrid, Grid
+    import itertools
+    reqs, reals = [], []
+    for nd in (1, 2, 3, 4):
+        for shape in itertools.product((1, 2, 3), repeat=nd):
+            fa = FlatGrid(Grid(shape0=shape, splits=()), ordering="serial").at(0)
+            reals.append([int(x) for x in fa._weights_serial(0)])
+            reqs.append(dict(op="weightsSerialGen", shape=list(shape)))
+    return reqs, reals
 
 
 def misc_requests(ctx):
